@@ -1,5 +1,5 @@
 (* Entry points evaluated by the correspondence harness (props/C16.py). *)
-From PV Require Export C16.Spec.
+From PV Require Export C16.Spec C16.Mgr.
 Local Open Scope nat_scope.
 
 Definition jn (n : nat) : jv := JZ (Z.of_nat n).
@@ -173,3 +173,15 @@ Definition run_copy (init : list sstate) (h : list mop) : jv :=
                          | Some ob => JL [jbool (match o_fptr ob with Some _ => true | None => false end);
                                           jbool (match nth (o_plat ob) (m_plats ms) None with Some _ => true | None => false end)]
                          | None => jnone end) (m_objs ms)) ].
+
+(* ---- histories over oneshot() manager OBJECTS (creation / enter / exit as separate events, Mgr.v):
+   the manager model, the sequential reading of the same history written with `with p.oneshot():`, the specification *)
+Definition run_mgr (init : list sstate) (h : list gop) : jv :=
+  let f := srcs_of init in
+  let q := sq_run (sq_init f) (flat_map erase h) in
+  JL [ match g_run h (g_init f) with
+       | Some g => JL [JL (map jv_sqres (rev (q_res (gs_q g)))); jv_ptrs (q_sh (gs_q g))]
+       | None => jnone
+       end;
+       JL [JL (map jv_sqres (rev (q_res q))); jv_ptrs (q_sh q)];
+       jopt (fun rs => JL (map jv_sres rs)) (spec_run f (flat_map erase h)) ].
